@@ -186,8 +186,12 @@ func (k *c20) weights(c *core.Ctx, i int, dir string, w c20Journal, r *rand.Rand
 	var maps []mrule
 	if r.Intn(3) == 0 {
 		m := mrule{level: 1 + r.Intn(2), suffix: r.Intn(3)}
-		if r.Intn(2) == 0 {
+		switch r.Intn(4) {
+		case 0:
 			m.rx = []string{"Equity", "Other", "Cash"}[r.Intn(3)]
+		case 1, 2:
+			// a rule that folds only one commodity of a class into its group row
+			m.rx = w.coms[r.Intn(len(w.coms))] + "$"
 		}
 		maps = append(maps, m)
 		spec := fmt.Sprint(m.level)
